@@ -65,25 +65,25 @@ contract, and every string `s` of scalar values: `RegExp::from` succeeds, the te
 writes is accepted by `Regex::new`, and the compiled pattern matches `s` in full **iff `s` is one of the
 test cases and `s ≠ ""`** — nothing else is accepted, and exactly the empty test case is lost (known finding D1) -/
 theorem default_exact (cap : Bool) (env : Env) (ws : List Str) (st : Stages)
-    (h : regExpFrom (cfgPlain cap) env ws = .ok st) (hseg : ∀ w ∈ ws, SegOK env w) (hne : ∃ t ∈ ws, t ≠ [])
+    (h : regExpFrom (cfgPlain cap false) env ws = .ok st) (hseg : ∀ w ∈ ws, SegOK env w) (hne : ∃ t ∈ ws, t ≠ [])
     (s : Str) (hs : ∀ c ∈ s, Scalar c) :
-    ∃ P, Spec.parse (fmtRegExp (cfgPlain cap) st.finalAst) = some (⟨false, false⟩, P) ∧
+    ∃ P, Spec.parse (fmtRegExp (cfgPlain cap false) st.finalAst) = some (⟨false, false⟩, P) ∧
       (Spec.fullMatch false P s = true ↔ (s ∈ ws ∧ s ≠ [])) :=
   Grexv.default_exact cap env ws st h hseg hne s hs
 
 /-- the model of `RegExp::from` cannot fail on such input: together with `default_exact` this covers every run -/
 theorem default_succeeds (cap : Bool) (env : Env) (ws : List Str) :
-    ∃ st, regExpFrom (cfgPlain cap) env ws = .ok st := by
-  obtain ⟨p, hp⟩ := Dfa.minimizePartition_some (Dfa.trie (graphemeClusters (cfgPlain cap) env (sortCases ws)))
-  have hci : (cfgPlain cap).ci = false := rfl
-  have hanch : ((cfgPlain cap).noStart && (cfgPlain cap).noEnd) = false := rfl
+    ∃ st, regExpFrom (cfgPlain cap false) env ws = .ok st := by
+  obtain ⟨p, hp⟩ := Dfa.minimizePartition_some (Dfa.trie (graphemeClusters (cfgPlain cap false) env (sortCases ws)))
+  have hci : (cfgPlain cap false).ci = false := rfl
+  have hanch : ((cfgPlain cap false).noStart && (cfgPlain cap false).noEnd) = false := rfl
   simp only [regExpFrom, hci, hanch, Bool.false_eq_true, ite_false, Dfa.minimize, hp, Option.map_some]
   exact ⟨_, rfl⟩
 
 /-- non-vacuity: a concrete run meets the hypotheses (one-code-point pieces): `ab | ac | ""` gives `a[bc]` -/
 example :
     let env : Env := { lowerOf := id, segOf := fun w => w.map fun c => [c] }
-    (match regExpFrom (cfgPlain false) env [strOf "ab", strOf "ac", []] with
+    (match regExpFrom (cfgPlain false false) env [strOf "ab", strOf "ac", []] with
       | .ok st => some st.finalAst
       | .error _ => none) = some (.cat (.lit [Grapheme.ofStr [97]]) (.cls [98, 99])) := by decide +kernel
 
